@@ -369,3 +369,7 @@ def run(ctx: Ctx, rep: Report, tier: str):
     c.s5_s6()
     c.s7()
     c.s8_s9()
+    from rules.common import remote_listing_independent_of_local
+    rep.rule("C20.S10", "the merged listing reports cloud-only files even when the local folder is gone: the remote half of smart_listdir_path does not depend on the local "
+             "listing succeeding", 1)
+    remote_listing_independent_of_local(ctx, rep, "C20.S10")
